@@ -40,6 +40,8 @@ pub fn serialise(recs: &[Vec<u8>], container: &str, wrap: usize, dir: &str, stem
     let eol = if container == "facrlf" { "\r\n" } else { "\n" };
     let w = if container == "faw" || container == "facrlf" { wrap.max(1) } else { 0 };
     let texts: Vec<Vec<u8>> = recs.iter().enumerate().map(|(i, s)| record_text(i, s, fastq, w, eol)).collect();
+    // "fadup": every record is in the file twice, under the same id (mates with the suffix stripped, a read listed twice)
+    let texts: Vec<Vec<u8>> = if container == "fadup" { texts.into_iter().flat_map(|t| [t.clone(), t]).collect() } else { texts };
     let ext = if fastq { "fq" } else if container == "faw" { "fasta" } else if container == "facrlf" { "fna" } else { "fa" };
     let (bytes, name) = match container {
         "fagz" | "fqgz" => (gz(&[texts.concat()], Compression::default()), format!("{}.{}.gz", stem, ext)),
@@ -213,6 +215,31 @@ fn canon_counts(acgt: bool, text: &str) -> String {
     let mut lines: Vec<(String, String)> = text.lines().map(|l| { let mut it = l.split('\t'); (it.next().unwrap_or("?").to_string(), it.next().unwrap_or("?").to_string()) }).collect();
     if acgt { lines.sort(); } else { lines.sort_by_key(|(k, c)| (k.parse::<u64>().unwrap_or(u64::MAX), c.clone())); }
     lines.iter().map(|(k, c)| format!("{}:{}", k, c)).collect::<Vec<_>>().join(",")
+}
+
+/// canonical minimiser output of a file in which every record stands twice under the same id: every s2m line and
+/// every m2s entry must be there exactly twice; returns the output of the file with each record once
+fn halve_pairs(s2m: bool, canon: &str) -> String {
+    fn halve(items: Vec<&str>) -> Option<Vec<String>> {
+        if items.len() % 2 != 0 { return None; }
+        let mut out = vec![];
+        for pair in items.chunks(2) { if pair[0] != pair[1] { return None; } out.push(pair[0].to_string()); }
+        Some(out)
+    }
+    if canon.is_empty() { return String::new(); }
+    if s2m {
+        match halve(canon.split(';').collect()) { Some(v) => v.join(";"), None => format!("NOT-TWICE {}", canon) }
+    } else {
+        let mut lines = vec![];
+        for l in canon.split(';') {
+            let (key, es) = l.split_once('=').unwrap_or((l, ""));
+            match halve(if es.is_empty() { vec![] } else { es.split('+').collect() }) {
+                Some(v) => lines.push(format!("{}={}", key, v.join("+"))),
+                None => return format!("NOT-TWICE {}", l),
+            }
+        }
+        lines.join(";")
+    }
 }
 
 pub fn canon_min(s2m: bool, text: &str) -> String {
@@ -471,6 +498,15 @@ pub fn exec(p: &[&str], scratch: &str) -> String {
             let mem = 8.0 * (limit as f64 + 0.5) / 1_000_000_000_f64;
             if (1_000_000_000_f64 * mem / 8.0) as u64 != limit { return "BAD-LIMIT".into(); }
             if p[3] == "1" { plant_stale(&od); }
+            if p[3] == "2" {
+                // a real earlier run of the library into the same directory that keeps its temp files (merge(false)):
+                // one worker, one chunk, another input
+                let other: Vec<Vec<u8>> = recs.iter().rev().map(|r| { let mut x = r.clone(); x.extend_from_slice(b"GATTACAGATTACA"); x }).chain(std::iter::once(b"ACGTACGTACGTACGTTTTTTTTTTTTTTTTT".to_vec())).collect();
+                let d0 = format!("{}/earlier", d); std::fs::create_dir_all(&d0).unwrap();
+                let inp0 = serialise(&other, "fa", 0, &d0, "in");
+                let mut c0 = counter::CountComputer::new(inp0, od.clone(), p[1].parse().unwrap());
+                c0.set_threads(1); c0.set_max_memory(6.0); c0.count(); c0.merge(false);
+            }
             let mut c = counter::CountComputer::new(inp, od.clone(), p[1].parse().unwrap());
             c.set_threads(1);
             c.set_max_memory(mem);
@@ -478,6 +514,11 @@ pub fn exec(p: &[&str], scratch: &str) -> String {
             let (chunks, parts) = c.verif_chunks_parts();
             let a = dir_listing(&od);
             c.merge(true);
+            if p[3] == "2" {
+                let b = dir_listing(&od);
+                let counts = b.split(';').find(|x| x.starts_with("counts=")).unwrap_or("").to_string();
+                return format!("{},{}||{}", parts, chunks, counts);
+            }
             format!("{},{}|{}|{}", parts, chunks, a, dir_listing(&od))
         }
         "covfs" => {
@@ -553,7 +594,8 @@ pub fn exec(p: &[&str], scratch: &str) -> String {
             let (w, m, t): (usize, usize, usize) = (p[1].parse().unwrap(), p[2].parse().unwrap(), p[3].parse().unwrap());
             if p[0] == "s2m" { misc::minimisers::seq_to_min(w, m, &inp, &out, t); } else { misc::minimisers::bin_sequences(w, m, &inp, &out, t); }
             let text = String::from_utf8(std::fs::read(&out).unwrap()).unwrap();
-            canon_min(p[0] == "s2m", &text)
+            let c = canon_min(p[0] == "s2m", &text);
+            if p[4] == "fadup" { halve_pairs(p[0] == "s2m", &c) } else { c }
         }
         _ => crate::sched::exec(p, scratch),
     }
